@@ -1,7 +1,7 @@
 SPECIFICATION Spec
 CONSTANT Cfg <- MCCfg2x3a3
 CONSTANT PostSteps = 1
-CONSTANT MaxLim = 3
+CONSTANT MaxLim = 2
 CONSTANT WithDefault = FALSE
 CONSTRAINT Bounded
 VIEW View
